@@ -160,3 +160,97 @@ REPLAYERS = {"pyanalyze.stacked_scopes.Constraint.apply_to_value": r_c02, "C02.D
 
 if __name__ == "__main__":
     print(search()); print(search(False)); print(w_d2(None)); print(w_d3(None))
+
+
+def search_len():
+    """LenPredicate on sequence values of statically known length: kept <=> a sequence of that length takes the branch"""
+    from pyanalyze.patma import LenPredicate
+    from pyanalyze.value import KnownValue, SequenceValue, TypedValue
+    ctx = _ctx()
+    for n in range(0, 4):
+        vals = [KnownValue(tuple(range(n))), SequenceValue(tuple, [(False, TypedValue(int))] * n), KnownValue("a" * n) if n else KnownValue("")]
+        for v in vals:
+            for expected in range(0, 4):
+                for star in (False, True):
+                    for positive in (True, False):
+                        got = LenPredicate(expected, star, ctx)(v, positive)
+                        takes = (n >= expected) if star else (n == expected)
+                        if (got is not None) != (takes == positive):
+                            return (f"LenPredicate(expected_length={expected}, has_star={star})({v}, positive={positive}) = {got}: a sequence of length {n} "
+                                    f"{'takes' if takes == positive else 'cannot take'} this branch")
+    return None
+
+
+def r_len(rec):
+    msg = search_len()
+    return (True, msg) if msg else (False, "LenPredicate agrees with the lengths on the enumerated values")
+
+
+REPLAYERS["pyanalyze.patma.LenPredicate.__call__"] = r_len
+
+
+# ---- end-to-end: conditions through the visitor (condition -> constraint translation, and/or/not composition) ----
+ATOMS = ["isinstance(x, int)", "isinstance(x, str)", "x is None", "x is not None", "opaque()", "not isinstance(x, int)", "x", "not x",
+         "isinstance(x, (int, str))", "x == 1"]
+XS = [1, 0, "s", "", None]
+
+
+def search_conditions():
+    import re
+    from replay.checkcode import check_code
+    conds = list(ATOMS)
+    for a in ATOMS:
+        for b in ATOMS:
+            if a != b:
+                conds += [f"{a} or {b}", f"{a} and {b}"]
+    for a in ATOMS[:5]:
+        for b in ATOMS[:5]:
+            if a != b:
+                conds += [f"not ({a} or {b})", f"not ({a} and {b})", f"({a} or {b}) and opaque()", f"({a} and {b}) or opaque()"]
+    lines = ["from typing import Union", "def opaque() -> bool:", "    return True"]
+    where = []
+    for i, c in enumerate(conds):
+        lines += [f"def f{i}(x: Union[int, str, None]) -> None:", f"    if {c}:", "        reveal_type(x)", "    else:", "        reveal_type(x)"]
+        where.append((len(lines) - 2, len(lines)))
+    res = check_code("\n".join(lines) + "\n")
+    rev = {}
+    for fl in res:
+        if fl["code"].name == "reveal_type":
+            m = re.search(r"Revealed type is '(.*)'", fl["description"], re.S)
+            rev[fl["lineno"]] = m.group(1) if m else fl["description"]
+
+    def member(x, txt):
+        if txt is None:
+            return False
+        parts = [p.strip() for p in txt.split(" | ")]
+        for p in parts:
+            if p == "int" and type(x) is int or p == "str" and type(x) is str or p == "None" and x is None:
+                return True
+            m = re.fullmatch(r"Literal\[(.*)\]", p)
+            if m:
+                try:
+                    lits = eval("[" + m.group(1) + "]")
+                except Exception:
+                    return True
+                if any(type(l) is type(x) and l == x for l in lits):
+                    return True
+            if p.startswith("Any") or p == "object":
+                return True
+        return False
+    for c, (la, lb) in zip(conds, where):
+        for x in XS:
+            for o in (True, False):
+                taken = bool(eval(c, {"x": x, "opaque": lambda: o}))
+                txt = rev.get(la if taken else lb)
+                if not member(x, txt):
+                    return (f"def f(x: Union[int, str, None]): if {c}: ... -- with x = {x!r} (opaque() = {o}) the {'if' if taken else 'else'} branch runs, "
+                            f"but x is narrowed there to {txt!r}")
+    return None
+
+
+def r_conditions(rec):
+    msg = search_conditions()
+    return (True, msg) if msg else (False, "narrowing keeps the actual value on every enumerated condition")
+
+
+REPLAYERS["C02.conditions"] = r_conditions
